@@ -47,7 +47,7 @@ func NewLedger() *Ledger {
 		expCommit: map[string]int{}, expTxDone: map[string]int{}, optTxDone: map[string]int{}}
 }
 
-var listenerKinds = []string{"L1", "L2", "L3", "L5", "L6"}
+var listenerKinds = []string{"L1", "L2", "L3", "L5", "L6", "L12", "L13", "L14"}
 
 // Expect registers the events of a committed operation.
 func (l *Ledger) Expect(evs []Ev) {
@@ -128,7 +128,11 @@ func (l *Ledger) Check() []Violation {
 				// an event nobody committed: also "no listener runs for a failed transaction"
 				props = []string{"C08", "C07"}
 			}
-			out = append(out, Violation{Props: props, Oracle: "ledger", Sig: fmt.Sprintf("event-%s:%s:%s:%s", kind, parts[0], parts[1], parts[2]),
+			style := parts[0]
+			if strings.HasPrefix(style, "L11:") {
+				style = "L11" // registered in flight; the tag names the registering operation
+			}
+			out = append(out, Violation{Props: props, Oracle: "ledger", Sig: fmt.Sprintf("event-%s:%s:%s:%s", kind, style, parts[1], parts[2]),
 				Detail: fmt.Sprintf("listener %s on store %s, %s event for id %q: delivered %d time(s), the committed history prescribes %d (+%d optional); state %s", parts[0], parts[1], parts[2], parts[3], g, want, opt, parts[4])})
 		}
 	}
@@ -197,6 +201,15 @@ func (l *typedListener[E]) HandleEntityEvent(e E) {
 	l.r.recordEvent(k, l.store, l.typ, e)
 }
 
+// asyncTypedListener is delivered on a goroutine of the library's own ("…Async" change types).
+type asyncTypedListener[E boltz.Entity] struct{ typedListener[E] }
+
+func (l *asyncTypedListener[E]) HandleEntityEvent(e E) {
+	defer l.r.s.AsyncDone()
+	l.r.s.AsyncEnter(fmt.Sprintf("async:%s:%s:%s:%s", l.kind, l.store, l.typ, e.GetId()))
+	l.typedListener.HandleEntityEvent(e)
+}
+
 type typedConstraint[E boltz.Entity] struct {
 	r     *Run
 	store string
@@ -261,6 +274,21 @@ func registerListeners[E boltz.Entity](r *Run, name string, store boltz.EntitySt
 		store.AddListener(func(e boltz.Entity) {
 			r.recordEvent("L3", name, typ, e)
 		}, sync)
+		// the remaining style x delivery combinations: typed listener object on the async type, typed function
+		// and untyped function the other way round
+		store.AddEntityEventListener(&asyncTypedListener[E]{typedListener[E]{r: r, store: name, typ: typ, kind: "L12"}}, async)
+		store.AddEntityEventListenerF(func(e E) {
+			r.recordEvent("L13", name, typ, e)
+		}, sync)
+		store.AddListener(func(e boltz.Entity) {
+			defer r.s.AsyncDone()
+			id := ""
+			if snapEntity(name, e) != "<nil>" {
+				id = e.GetId()
+			}
+			r.s.AsyncEnter(fmt.Sprintf("async:L14:%s:%s:%s", name, typ, id))
+			r.recordEvent("L14", name, typ, e)
+		}, async)
 	}
 	store.AddEntityIdListener(func(id string) {
 		r.recordIdEvent("L4", name, EvDelete, id)
@@ -280,4 +308,73 @@ func registerListeners[E boltz.Entity](r *Run, name string, store boltz.EntitySt
 	}, boltz.EntityCreatedAsync, boltz.EntityDeletedAsync, boltz.EntityUpdatedAsync)
 	store.AddEntityConstraint(&typedConstraint[E]{r: r, store: name})
 	store.AddUntypedEntityConstraint(&untypedConstraint{r: r, store: name})
+}
+
+// ---------- listeners registered while a transaction is in flight ----------
+
+type lateListener struct {
+	tag   string // "L11:<tx>#<op>"
+	store string
+	style int // 0 id listener, 1 untyped entity listener, 2 untyped constraint
+	btx   int // the write transaction during which it was registered
+}
+
+func (l *Ledger) ExpectLate(ll *lateListener, evs []Ev) {
+	l.mu.Lock()
+	defer l.mu.Unlock()
+	for _, e := range evs {
+		if e.Store != ll.store {
+			continue
+		}
+		snap := e.Snap
+		if ll.style == 0 {
+			snap = "id"
+		}
+		key := LedgerEntry{Listener: ll.tag, Store: e.Store, Type: "*", Id: e.Id, Snap: snap}.key()
+		if e.Optional {
+			l.optional[key]++
+		} else {
+			l.expected[key]++
+		}
+	}
+}
+
+type lateConstraint struct {
+	r   *Run
+	tag string
+	st  string
+}
+
+func (c *lateConstraint) ProcessPreCommit(boltz.UntypedEntityChangeState) error { return nil }
+
+func (c *lateConstraint) ProcessPostCommit(state boltz.UntypedEntityChangeState) {
+	e := state.GetFinalState()
+	if state.GetChangeType().IsDelete() {
+		e = state.GetInitialState()
+	}
+	c.r.recordEvent(c.tag, c.st, "*", e)
+}
+
+// lateListen registers the listener of a "listen" operation once (a Batch body may run again).
+func (r *Run) lateListen(tag string, op Op, btx int) {
+	r.mu.Lock()
+	if r.late == nil {
+		r.late = map[string]*lateListener{}
+	}
+	if _, done := r.late[tag]; done {
+		r.mu.Unlock()
+		return
+	}
+	r.late[tag] = &lateListener{tag: tag, store: op.S, style: op.N % 3, btx: btx}
+	r.mu.Unlock()
+	r.probe("late_listener_registered")
+	store, name := r.st.ByName(op.S), op.S
+	switch op.N % 3 {
+	case 0:
+		store.AddEntityIdListener(func(id string) { r.recordIdEvent(tag, name, "*", id) }, boltz.EntityCreated, boltz.EntityUpdated, boltz.EntityDeleted)
+	case 1:
+		store.AddListener(func(e boltz.Entity) { r.recordEvent(tag, name, "*", e) }, boltz.EntityCreated, boltz.EntityUpdated, boltz.EntityDeleted)
+	case 2:
+		store.AddUntypedEntityConstraint(&lateConstraint{r: r, tag: tag, st: name})
+	}
 }
